@@ -52,6 +52,8 @@ func c03Docs(tier string) []*val.V {
 	for _, h := range []string{
 		`[3, 1, 2]`, `[[2, 1], [0]]`, `{"a": [3, 1, 2], "b": 1}`, `[{"a": 2}, {"a": 1}]`, `[{"a": 1, "b": 0}, {"a": 1}, {"a": 0}]`,
 		`{"a": {"ab": 1, "a": 0}, "ab": [1]}`, `[1, [2, [3]], 1]`, `{"a": [{"a": 1}, {"a": 0}], "ab": 2}`, `[1, 0, 1, 0]`,
+		// keys that are patterns for the traversal's matcher: a deleted entry is located by what it is, not by matching its key text
+		`{"a*": 1, "ab": 0, "a": 0}`, `{"ab": 0, "a?": 1, "a": 1}`, `{"*": 0, "a": 1, "b": 0}`,
 		`[0, 1, 2, 3, 4, 5, 6, 7, 8, 9, 10, 11]`, `{"a": [0, 1, 2, 3, 4, 5, 6, 7, 8, 9, 10, 11], "b": [1, 0]}`,
 	} {
 		docs = append(docs, fromJSONText(h))
